@@ -33,6 +33,18 @@ def showBool (b : Bool) : String := if b then "true" else "false"
 
 def b01 (b : Bool) : String := if b then "1" else "0"
 
+/-- `k=v` tokens to an association list -/
+def kvs (ws : List String) : List (String × String) :=
+  ws.filterMap fun w =>
+    match w.splitOn "=" with
+    | k :: rest@(_ :: _) => some (k, "=".intercalate rest)
+    | _ => none
+
+def getS (m : List (String × String)) (k : String) (d : String := "-") : String := (m.lookup k).getD d
+def getN (m : List (String × String)) (k : String) (d : Nat := 0) : Nat := ((m.lookup k).bind (·.toNat?)).getD d
+def getI (m : List (String × String)) (k : String) (d : Int := 0) : Int := ((m.lookup k).bind (·.toInt?)).getD d
+def getB (m : List (String × String)) (k : String) : Bool := (m.lookup k) == some "1"
+
 /-- a driver: initial state and a step on tokenised lines. -/
 structure Drv where
   σ : Type
@@ -54,5 +66,18 @@ partial def runLoop (d : Drv) (h : IO.FS.Stream) (out : IO.FS.Stream) (s : d.σ)
     let (s', o) := d.step s (words l)
     out.putStrLn o
     runLoop d h out s'
+
+/-- `main` of a model executable serving the given drivers: `<exe> <stream>` -/
+def mainFor (drivers : List (String × Drv)) (args : List String) : IO UInt32 := do
+  match args with
+  | [name] =>
+    match drivers.lookup name with
+    | some d =>
+      let stdin ← IO.getStdin
+      let stdout ← IO.getStdout
+      runLoop d stdin stdout d.init
+      return 0
+    | none => IO.eprintln s!"unknown stream {name}"; return 2
+  | _ => IO.eprintln "usage: <model exe> <stream>"; return 2
 
 end Paho.Driver
